@@ -23,6 +23,11 @@ class Obj(object):
     """an opaque, weak-referenceable, picklable blob value"""
     def __init__(self, n):
         self.n = n
+        self.closed = False
+
+    def close(self):
+        """a resource-like value (a connection, a buffer, a generator): once closed it is of no use to whoever holds it"""
+        self.closed = True
 
     def __eq__(self, o):
         return isinstance(o, Obj) and o.n == self.n
@@ -82,7 +87,7 @@ def apply_op(store, op, DDSException, keep_refs=None, hold=None):
                 keep_refs.append(weakref.ref(v))
             if v is not None and hold is not None:
                 hold.append(v)       # the program goes on using what it fetched
-            return {"val": None if v is None else v.n}
+            return {"val": None if v is None else v.n, "closed": bool(getattr(v, "closed", False))}
         if kind == "sync":
             store.sync_paths(OrderedDict([(p, k) for (p, k) in op[1]]))
             return "unit"
@@ -159,6 +164,8 @@ def run(ctx):
                     alive = len({id(o) for o in (r() for r in refs) if o is not None})
                     if alive > cap:
                         first_bad = ("%d fetched objects are still alive, capacity %d, after op %d" % (alive, cap, j), j)
+            if first_bad is None and held is not None and any(getattr(o, "closed", False) for o in held):
+                first_bad = ("an object that the caller fetched and still holds has been closed by the store", len(ops) - 1)
             res.evaluations += 1
             res.count("inner_" + kind)
             res.count("ops", len(ops))
@@ -168,9 +175,10 @@ def run(ctx):
                                        "input": {"inner": kind, "capacity": cap, "ops": ops[: first_bad[1] + 1],
                                                  "fetched_objects_kept_by_the_caller": held is not None}, "kf": None})
             reqs.append({"op": "storeops", "kind": "dict", "ops": ops})
-            meta.append(("bare " + kind, ops, outs_b, None))
+            unflag = lambda outs: [dict((k_, v_) for (k_, v_) in o.items() if k_ != "closed") if isinstance(o, dict) else o for o in outs]
+            meta.append(("bare " + kind, ops, unflag(outs_b), None))
             reqs.append({"op": "storeops", "kind": "lru", "cap": cap, "ops": ops})
-            meta.append(("wrapped " + kind, ops, outs_w, sizes))
+            meta.append(("wrapped " + kind, ops, unflag(outs_w), sizes))
             if i < 2:
                 res.sample({"inner": kind, "capacity": cap, "ops": ops[:12], "bare": outs_b[:12], "wrapped": outs_w[:12]})
     finally:
